@@ -395,6 +395,65 @@ class FaultRun:
                     return
         self.continue_history(s, "raising_predicate")
 
+    def fault_unusual_valid_inputs(self, s):
+        """Valid but unusual values (instances of str/int/float subclasses, Mapping types other than dict).  They are
+        supposed to be accepted; what C11 demands is only: IF the call raises, the database is as it was."""
+        import collections
+        import enum
+        import types
+
+        from tinyflux import MeasurementQuery, Point
+
+        from ..common import from_us
+        from ..gen import BASE_US
+
+        class Label(str):
+            pass
+
+        class Color(str, enum.Enum):
+            RED = "red"
+
+        class Level(enum.IntEnum):
+            HIGH = 3
+
+        class Celsius(float):
+            pass
+
+        t = from_us(BASE_US + 10**9)
+        cases = [
+            ("insert(tag value str-subclass)", lambda db: db.insert(Point(time=t, tags={"k": Label("lab")}, fields={"x": 1}))),
+            ("insert(tag key str-subclass)", lambda db: db.insert(Point(time=t, tags={Label("lk"): "v"}))),
+            ("insert(tag value str-Enum)", lambda db: db.insert(Point(time=t, tags={"k": Color.RED}))),
+            ("insert(measurement str-subclass)", lambda db: db.insert(Point(time=t, measurement=Label("m0")))),
+            ("insert(field IntEnum)", lambda db: db.insert(Point(time=t, fields={"x": Level.HIGH}))),
+            ("insert(field float-subclass)", lambda db: db.insert(Point(time=t, fields={"x": Celsius(21.5)}))),
+            ("insert(tags OrderedDict)", lambda db: db.insert(Point(time=t, tags=collections.OrderedDict(k="a")))),
+            ("insert_multiple([plain, str-subclass tag])", lambda db: db.insert_multiple([Point(time=t, tags={"k": "a"}), Point(time=t, tags={"k": Label("b")})])),
+            ("update(tags={k: str-subclass})", lambda db: db.update(MeasurementQuery().noop(), tags={"k": Label("upd")})),
+            ("update(measurement=str-subclass)", lambda db: db.update(MeasurementQuery() == "m0", measurement=Label("m1"))),
+            ("handle.insert(field IntEnum)", lambda db: db.measurement("m0").insert(Point(time=t, fields={"y": Level.HIGH}))),
+        ]
+        for label, call in cases:
+            pre = s.model.copy()
+            exc = None
+            try:
+                call(s.db)
+            except Exception as e:
+                exc = e
+            fault = f"unusual_valid_input:{label}"
+            s.log.append({"op": "FAULT", "fault": fault})
+            if exc is None:
+                # accepted, as it should be: adopt what is stored now and go on
+                self.res.count("unusual_valid_inputs_accepted")
+                post = s.contents()
+                if any(c and c[0] == "BAD" for c in post):
+                    return
+                s.model.points = [MPoint(c[0], c[1], dict(c[2]), dict(c[3])) for c in post]
+                continue
+            if not self.after_fault(s, fault, exc, list(pre.points)):
+                return
+        self.continue_history(s, "unusual_valid_input")
+
     def fault_invalid_arguments(self, s):
         for label, call in invalid_argument_calls():
             exc = None
@@ -451,7 +510,7 @@ class FaultRun:
                 return
 
 
-FAMILIES = ["insert_multiple", "update_callable", "invalid_arguments", "read_only", "raising_predicate"]
+FAMILIES = ["insert_multiple", "update_callable", "invalid_arguments", "read_only", "raising_predicate", "unusual_valid_inputs"]
 
 
 def run(res, tier, seed, shard, nshards):
@@ -478,6 +537,7 @@ def run(res, tier, seed, shard, nshards):
     res.require("ops_after_fault")
     res.require("reads_after_fault")
     res.require("file_checks_after_fault")
+    res.require("unusual_valid_inputs_accepted")
     res.assumptions += [
         "update callables misbehave in a single slot per call; insert_multiple offenders are non-Point objects or a raising generator",
         "'still usable' is decided on 5-10 further operations and ~24 reads each, compared with the model",
